@@ -309,6 +309,48 @@ theorem traverse_total (g : Graph T D S) (h : T → Nat)
       have := hh n r hr
       exact ih r.dst x' s2 (acc ++ [n]) (by omega)
 
+
+/-! ### totality relative to an invariant (state-free graphs) -/
+
+theorem firstAccept_total_unit (rs : List (Rel T D Unit)) (x : D)
+    (hg : ∀ r ∈ rs, ∃ v, r.guard x () = .ok v) :
+    ∃ o, firstAccept rs x () = .ok (o, ()) ∧ (∀ r, o = some r → r ∈ rs ∧ r.guard x () = .ok (true, ())) := by
+  induction rs with
+  | nil => exact ⟨none, rfl, by simp⟩
+  | cons r rs ih =>
+    obtain ⟨⟨b, u⟩, hv⟩ := hg r List.mem_cons_self
+    cases u
+    simp only [firstAccept, hv]
+    cases b with
+    | true => exact ⟨some r, rfl, by intro r' h; cases h; exact ⟨List.mem_cons_self, hv⟩⟩
+    | false =>
+      obtain ⟨o, h1, h2⟩ := ih (fun r hr => hg r (List.mem_cons_of_mem _ hr))
+      exact ⟨o, h1, fun r' hr => ⟨List.mem_cons_of_mem _ (h2 r' hr).1, (h2 r' hr).2⟩⟩
+
+/-- if, at every configuration satisfying an invariant, no guard raises, and every accepting relation's transformer
+returns and re-establishes the invariant at its target, the traversal returns normally -/
+theorem traverse_total_inv (g : Graph T D Unit) (h : T → Nat) (Inv : T → D → Prop)
+    (hh : ∀ n r, r ∈ g.succ n → h r.dst < h n)
+    (hg : ∀ n x, Inv n x → ∀ r ∈ g.succ n, ∃ v, r.guard x () = .ok v)
+    (hx : ∀ n x, Inv n x → ∀ r ∈ g.succ n, r.guard x () = .ok (true, ()) →
+      ∃ x', r.xform x () = .ok (x', ()) ∧ Inv r.dst x') :
+    ∀ f n x acc, h n < f → Inv n x → ∃ v, traverse g f n x () acc = .ok v := by
+  intro f
+  induction f with
+  | zero => intro n x acc hf; omega
+  | succ f ih =>
+    intro n x acc hf hi
+    obtain ⟨o, hv, hmem⟩ := firstAccept_total_unit (g.succ n) x (hg n x hi)
+    simp only [traverse, hv]
+    cases o with
+    | none => exact ⟨_, rfl⟩
+    | some r =>
+      obtain ⟨hr, hacc⟩ := hmem r rfl
+      obtain ⟨x', hxv, hi'⟩ := hx n x hi r hr hacc
+      simp only [hxv]
+      have := hh n r hr
+      exact ih r.dst x' (acc ++ [n]) (by omega) hi'
+
 /-! ### sampled traversal (C18) -/
 
 /-- data `x` at node `a` is pushed through exactly the relations leading along `hops`, each of
